@@ -282,6 +282,49 @@ def rule_changes_mid_call_scenario(ctx, viol, stats):
                 pr.destroy()
 
 
+def rule_changes_during_own_build_scenario(ctx, viol, stats):
+    """"Creating a higher-priority script or removing the chosen one causes the target to be rebuilt with the new
+    choice" — also when that happens while the target's own script is running (the user saves `z.do` while `z` is being
+    built by default.do; a clean-up retires default.c.do while x.c is being built by it).  The build under way keeps the
+    script it started with; the NEXT redo-ifchange must rebuild the target with the new choice, and then stay quiet."""
+    import subprocess, time
+    from proj import Project, clean_env
+    cases = [("created", "z", 'echo "default 1=$1"', "z.do", 'echo "z.do 1=$1"', "z.do 1=z"),
+             ("removed", "x.c", 'echo "default.c 1=$1"', None, None, "default 1=x.c")]
+    for kind, t, body, newrule, newbody, want in cases:
+        pr = Project()
+        try:
+            pr.write("default.do", ': >started.$1\nwhile [ ! -e go.$1 ]; do sleep 0.05; done\necho "default 1=$1"\n')
+            if kind == "removed":
+                pr.write("default.c.do", ': >started.$1\nwhile [ ! -e go.$1 ]; do sleep 0.05; done\n' + body + "\n")
+            p = subprocess.Popen(["redo-ifchange", t], cwd=pr.root, env=clean_env(), stdin=subprocess.DEVNULL, stdout=subprocess.PIPE, stderr=subprocess.PIPE, start_new_session=True)
+            t0 = time.time()
+            while not os.path.exists(pr.path("started." + t)) and time.time() - t0 < 20:
+                time.sleep(0.05)
+            if kind == "created":
+                pr.write(newrule, newbody + "\n")
+            else:
+                os.unlink(pr.path("default.c.do"))
+            pr.write("go." + t, "")
+            try:
+                o, e = p.communicate(timeout=30)
+            except subprocess.TimeoutExpired:
+                p.kill()
+                o, e = p.communicate()
+            first = (pr.read(t) or b"").decode().strip()
+            rc2, o2, e2 = pr.run(["redo-ifchange", t], timeout=30)
+            second = (pr.read(t) or b"").decode().strip()
+            rcw, ow, ew = pr.run(["redo-whichdo", t], timeout=30)
+            stats["rule_changes_during_build"] = stats.get("rule_changes_during_build", 0) + 1
+            if p.returncode != 0 or rc2 != 0 or second != want:
+                pth = write_replay("C13", "rule-%s-during-build" % kind, dict(kind="impl-monitor", clause="creating a higher-priority script or removing the chosen one causes the target to be rebuilt with the new choice",
+                                                                             target=t, rc_first=p.returncode, after_first=first, rc_next=rc2, after_next=second, want=want, whichdo=ow[:300], stderr=e2[-500:]))
+                viol.append(Violation("C13", pth, "a rule %s while %s was being built: after the next redo-ifchange (exit %d) %s holds %r, the first existing candidate gives %r" % (kind, t, rc2, t, second, want)))
+                return
+        finally:
+            pr.destroy()
+
+
 def latin1_script_scenario(ctx, viol, stats):
     """The chosen script is run whatever bytes it contains: a .do file whose first line is not valid UTF-8 (a comment in
     Latin-1) is an ordinary sh script; one whose first line is `#!/…` with such bytes further on is still started through
@@ -350,6 +393,8 @@ def run(ctx):
             latin1_script_scenario(ctx, viol, stats)
         if not viol:
             rule_changes_mid_call_scenario(ctx, viol, stats)
+        if not viol:
+            rule_changes_during_own_build_scenario(ctx, viol, stats)
     ncand = sum(len(parse_cands(x) or []) for x in impl)
     return dict(evaluations=len(lines) + stats["placements"] * 2 + stats["reselect"] * 2,
                 distinct_nontrivial=len(set(l for l, r in zip(lines, impl) if r != "none" and r.count(",") >= 2)),
